@@ -399,6 +399,83 @@ def ambiguous_cases(rng, n):
     return out
 
 
+def regex_cases(rng, n):
+    """the regex("...") matcher, with and without a destination, with a top-level alternation and / or directly followed by
+    a quantifier, next to capturing patterns.  The matcher is one unit of the anchored rule: the expectation is computed
+    with Python's re on the reference expression \\A ... \\z in which a destination-less matcher is (?:E)."""
+    import re
+    out = []
+    ref = {"data": ".*?", "notSpace": r"\S+", "word": r"\b\w+\b"}
+    while len(out) < n:
+        nalt = rng.choice([1, 2, 2, 3])
+        branches = ["".join(rng.choice("abGETPOS01") for _ in range(rng.randint(1, 3))) for _ in range(nalt)]
+        if rng.random() < 0.25:
+            branches = rng.choice([["GET", "POST"], ["a", "b"], ["ab"], ["a", "ab"], ["ab", "a"]])
+        expr = "|".join(branches)
+        quant = rng.choice(["", "", "+", "?", "*"])
+        with_dest = rng.random() < 0.2
+        parts, refparts, fields = [], [], []
+
+        def cap(kind):
+            name = "f%d" % len(fields)
+            fields.append(name)
+            parts.append("%%{%s:%s}" % (kind, name))
+            refparts.append("(?P<%s>%s)" % (name, ref[kind]))
+
+        def rx():
+            if with_dest:
+                name = "f%d" % len(fields)
+                fields.append(name)
+                parts.append('%%{regex("%s"):%s}' % (expr, name))
+                refparts.append("(?P<%s>%s)" % (name, expr))
+            else:
+                parts.append('%%{regex("%s")}%s' % (expr, quant))
+                refparts.append("(?:%s)%s" % (expr, quant))
+
+        def sep():
+            c = rng.choice([" ", " ", "-", ":", "/"])
+            parts.append(esc(c))
+            refparts.append(re.escape(c))
+
+        shape = rng.random()
+        if shape < 0.5:
+            rx(); sep(); cap(rng.choice(["data", "data", "notSpace", "word"]))
+        elif shape < 0.7:
+            cap(rng.choice(["data", "notSpace", "word"])); sep(); rx()
+        elif shape < 0.85:
+            rx()
+        else:
+            cap("word"); sep(); rx(); sep(); cap("data")
+        rule = "".join(parts)
+        reference = re.compile("".join(refparts), re.DOTALL)
+        # inputs: built from the branches, and near misses
+        pieces = []
+        for prt in parts:
+            if prt.startswith("%{regex"):
+                reps = 1 if (with_dest or quant == "") else rng.choice([0, 1, 2, 3])
+                pieces.append("".join(rng.choice(branches) for _ in range(reps)))
+            elif prt.startswith("%{"):
+                pieces.append("".join(rng.choice("abTY/x1") for _ in range(rng.randint(0, 4))))
+            else:
+                pieces.append(prt[-1])
+        t = "".join(pieces)
+        c = rng.random()
+        if c < 0.35:
+            t = perturb(rng, t)
+        elif c < 0.5:
+            t = t + rng.choice(["TY", "c", "b", " x"])
+        elif c < 0.6:
+            t = rng.choice(["ab", "b", "x "]) + t
+        m = reference.fullmatch(t)
+        if m is None:
+            expect = ["matchiff", False]
+        else:
+            expect = ["object", to_vjson({k: v for k, v in m.groupdict().items() if v})]
+        out.append({"kind": "regex", "patterns": [h(rule)], "aliases": [], "input": h(t), "expect": expect,
+                    "vrl": rng.random() < 0.2})
+    return out
+
+
 def malformed_cases(rng, n):
     atoms = ["%{", "}", ":", ".", "\"", "(", ")", "\\", "word", "integer", "data", "notSpace", "f", "g", "scale", "nullIf",
              "number", "lowercase", "2", "0", " ", "a", "-", "%", "{", "al0", "true", "null", ",", "[", "]", "*", "+", "?", "|"]
@@ -427,8 +504,8 @@ def gen_cases(run, n):
 
 
 def _gen_cases(rng, n):
-    return (literal_cases(rng, n * 25 // 100) + rule_cases(rng, n * 35 // 100) + ambiguous_cases(rng, n * 15 // 100)
-            + cycle_cases(rng, n // 10) + malformed_cases(rng, n * 15 // 100))
+    return (literal_cases(rng, n * 25 // 100) + rule_cases(rng, n * 30 // 100) + ambiguous_cases(rng, n * 12 // 100)
+            + regex_cases(rng, n * 10 // 100) + cycle_cases(rng, n // 10) + malformed_cases(rng, n * 13 // 100))
 
 
 # ------------------------------------------------------------------ rendering
